@@ -265,6 +265,10 @@ func VerifC04Step() {
 		kinds = append(kinds, k)
 		data.AclContent = append(data.AclContent, vC04Content(st, k, author, listLen))
 	}
+	var twin *AclState
+	if nb > 1 {
+		twin = vC04Clone(st)
+	}
 	rec := &AclRecord{Id: "new", PrevId: "head", Identity: &vPub{id: author}, Model: data}
 	err := st.ApplyRecord(rec)
 	if err != nil {
@@ -273,7 +277,77 @@ func VerifC04Step() {
 	}
 	rt.Reach("accepted")
 	post := vC04Snapshot(st)
+	if nb == 1 {
+		vC04Rules(st, pre, post, ai, kinds, "new")
+		return
+	}
+	// A batched record is validated and applied content by content, each against the state the
+	// previous one left.  The rules are therefore checked per content: the twin state receives the
+	// same contents as separate records of the same author, every step must satisfy the rules, and
+	// the batched record must end exactly where the sequence ends.
+	cur := pre
+	for b := 0; b < nb; b++ {
+		// the same record id, so that whatever a content registers under it is found by the next one
+		one := &AclRecord{Id: "new", PrevId: twin.lastRecordId, Identity: &vPub{id: author}, Model: &aclrecordproto.AclData{AclContent: data.AclContent[b : b+1]}}
+		if twin.ApplyRecord(one) != nil {
+			rt.Assert(false, "batched-content-accepted-only-if-acceptable-alone")
+			return
+		}
+		next := vC04Snapshot(twin)
+		vC04Rules(twin, cur, next, ai, kinds[b:b+1], "new")
+		cur = next
+	}
+	for i := 0; i < 5; i++ {
+		rt.Assert(rt.AllOf(cur.perm[i] == post.perm[i], cur.status[i] == post.status[i], cur.present[i] == post.present[i], cur.pending[i] == post.pending[i]), "batch-equals-sequence")
+	}
+	for k := 0; k < 2; k++ {
+		rt.Assert(rt.AllOf(cur.invHas[k] == post.invHas[k], cur.invPerm[k] == post.invPerm[k], cur.invType[k] == post.invType[k]), "batch-equals-sequence")
+	}
+	rt.Assert(cur.nOpts == post.nOpts, "batch-equals-sequence")
+	rt.Reach("batch-compared")
+}
 
+func vC04Clone(st *AclState) *AclState {
+	c := &AclState{
+		id:              st.id,
+		keys:            map[string]AclKeys{},
+		accountStates:   map[string]AccountState{},
+		invites:         map[string]Invite{},
+		requestRecords:  map[string]RequestRecord{},
+		pendingRequests: map[string]string{},
+		readKeyChanges:  append([]string(nil), st.readKeyChanges...),
+		pubKey:          st.pubKey,
+		keyStore:        st.keyStore,
+		lastRecordId:    st.lastRecordId,
+	}
+	for _, id := range []string{"root"} {
+		c.keys[id] = st.keys[id]
+	}
+	for _, id := range vC04Ids {
+		if as, ok := st.accountStates[id]; ok {
+			as.PermissionChanges = append([]PermissionChange(nil), as.PermissionChanges...)
+			c.accountStates[id] = as
+		}
+		if r, ok := st.pendingRequests[id]; ok {
+			c.pendingRequests[id] = r
+		}
+	}
+	for _, id := range []string{"i0", "i1"} {
+		if v, ok := st.invites[id]; ok {
+			c.invites[id] = v
+		}
+	}
+	for _, id := range []string{"q0", "q1"} {
+		if v, ok := st.requestRecords[id]; ok {
+			c.requestRecords[id] = v
+		}
+	}
+	c.contentValidator = newContentValidator(c.keyStore, c, recordverifier.NewValidateFull())
+	return c
+}
+
+// vC04Rules: the privilege rules over one step pre -> post made by author ai with contents of the given kinds.
+func vC04Rules(st *AclState, pre, post vC04Snap, ai int, kinds []int, recId string) {
 	authorPerm := pre.perm[ai]
 	if !pre.present[ai] {
 		authorPerm = vNone
@@ -335,7 +409,7 @@ func VerifC04Step() {
 			rt.AnyOf(!pre.invHas[k], pre.invPerm[k] != vAdmin))
 		rt.Assert(rt.AnyOf(!becameAdmin, isOwner), "admin-invite-only-by-owner")
 	}
-	if inv, ok := st.invites["new"]; ok {
+	if inv, ok := st.invites[recId]; ok {
 		rt.Assert(canManage, "invites-managed-only-by-managers")
 		if inv.Type == aclrecordproto.AclInviteType_AnyoneCanJoin {
 			rt.Assert(rt.AnyOf(int32(inv.Permissions) != vAdmin, isOwner), "admin-invite-only-by-owner")
